@@ -4,6 +4,7 @@
 //  structure  (C05): the same files are accepted by the independent strict reader (ref/parquet_reader.hpp),
 //                    which recovers the same table; writing the table twice gives byte-identical files.
 //  page_stats (C16): page-header statistics written by the writer bound the page's values.
+#include <malloc.h>
 #include "harness/common/pbt.hpp"
 #include "harness/common/consume.hpp"
 #include "harness/common/cwriter.hpp"
@@ -162,7 +163,44 @@ static Verdict runPageStats(const W &w) {
   return vd;
 }
 
+// determinism under perturbed heaps (C05, last sentence): before each write the heap is polluted (blocks of many sizes filled
+// with pseudo-random bytes and freed, so that the writer's malloc calls get them back; once more with glibc's M_PERTURB
+// pattern); the same table is written each time and the files must be byte-identical.  Output that
+// depends on never-written heap memory (an uncleared hash table, padding copied from a scratch block) differs.
+// Meaningful in the non-sanitizer build only (ASan replaces the allocator); registered as its own engine.
+static Verdict runDeterminism(const W &w) {
+  Verdict vd;
+  auto lv = pw::leaves(w.fs.root);
+  if (excludedCase(w, lv, vd)) return vd;
+  labels(vd, classify(w, lv));
+  Bytes b1, b2; std::string err; bool refused = false;
+  // freed blocks of many sizes, filled with pseudo-random bytes, are what the next malloc calls of the writer get back
+  auto pollute = [](uint64_t seed) {
+    std::vector<void *> blocks;
+    static const size_t sizes[] = {24, 64, 200, 520, 1024, 2048, 4096, 8192, 16384, 32768, 32784, 65536, 131072, 262144, 1048576};
+    for (int round = 0; round < 3; round++)
+      for (size_t sz : sizes) { uint8_t *p = (uint8_t *)malloc(sz); if (!p) continue; for (size_t i = 0; i < sz; i += 8) { uint64_t x = gf::dxs(seed); memcpy(p + i, &x, std::min<size_t>(8, sz - i)); } blocks.push_back(p); }
+    for (void *p : blocks) free(p);
+  };
+  mallopt(M_PERTURB, 0);
+  pollute(0x1234567 + w.order);
+  bool ok1 = writeWith(w, lv, b1, err, refused);
+  pollute(0x7654321 + w.order);
+  bool ok2 = ok1 && writeWith(w, lv, b2, err, refused);
+  // and once with glibc's constant fill pattern
+  Bytes b3; mallopt(M_PERTURB, 0x5A);
+  bool ok3 = ok2 && writeWith(w, lv, b3, err, refused);
+  mallopt(M_PERTURB, 0);
+  if (ok3 && b3 != b1) b2 = b3;
+  if (!ok1) { vd.vacuous = true; vd.label("writer_refused"); return vd; }
+  PBT_CHECK(vd, ok2, "second write of the same table failed: %s", err.c_str());
+  if (b1 != b2) { size_t i = 0; while (i < b1.size() && i < b2.size() && b1[i] == b2[i]) i++; PBT_CHECK(vd, false, "the same table written under two heap fill patterns gives different files: first difference at byte %zu (sizes %zu / %zu, codec %d) - the output depends on uninitialised memory", i, b1.size(), b2.size(), w.codec); }
+  vd.nontrivial = b1.size() > 64;
+  return vd;
+}
+
 int main(int argc, char **argv) {
+  add<W>("determinism", 0.0001, genW, ser, de, runDeterminism);   // selected with --only by its own engine
   add<W>("roundtrip", 1, genW, ser, de, runRoundtrip);
   add<W>("structure", 1, genW, ser, de, runStructure);
   add<W>("page_stats", 1, genW, ser, de, runPageStats);
